@@ -17,7 +17,12 @@ From Verif Require C19.GenOkCode.
 Import ListNotations.
 Open Scope Z_scope.
 
-(* Hypotheses, for a directory [st] searched from [min] with current state [c]:
+(* Domain of the search theorems: every request is answered by a whole well-formed state file or
+   by a 404, state file n names sequence number n (the code takes the number from the file
+   body), and files below [min] are not looked at ("first available" = first in min..current).
+   Other outcomes (other statuses, broken transfers, damaged files, cancellation) are outside
+   the model: see checks.d/C19.json assumptions.
+   Hypotheses, for a directory [st] searched from [min] with current state [c]:
      min <= fst c                 the newest sequence number is not below the first one
      st (fst c) = Some (snd c)    the current state file names the newest file and its stamp
      mono st min (fst c)          stamps are non-decreasing over the present files
@@ -104,9 +109,11 @@ Theorem C19_monob_sound : forall st min cur, monob st min cur = true -> mono st 
 Proof. exact monob_sound. Qed.
 Print Assumptions C19_monob_sound.
 
-(* a missing current state file ends the search after that one request *)
+(* a missing current state file ends the search after that one request (definitional: this is
+   how [search] models the NotFound return of searchTimestamp) *)
 Theorem C19_no_current : forall fuel st min t, search fuel st min None t = Some (ErrNotFound, [0]).
 Proof. reflexivity. Qed.
+Print Assumptions C19_no_current.
 
 (* 3. URL layout.  [state_url]/[data_url] are fmt.Sprintf (modelled) applied to the format
       strings and argument expressions re-read from baseSeqURL / baseChangesetURL on every run.
@@ -124,12 +131,14 @@ Theorem C19_data_url_layout : forall k base n, 0 <= n < 1000000000 ->
 Proof. exact data_url_planet. Qed.
 Print Assumptions C19_data_url_layout.
 
+(* (first conjunct: definitional unfolding of [planet_path], kept to display the layout) *)
 Theorem C19_path_components : forall base dir n,
   planet_path base dir n =
   (base ++ "/replication/" ++ dir ++ "/" ++ d3 (n / 1000000) ++ "/" ++ d3 ((n / 1000) mod 1000)
         ++ "/" ++ d3 (n mod 1000))%string
   /\ (forall x, String.length (d3 x) = 3%nat).
 Proof. intros. split; [reflexivity|exact d3_length]. Qed.
+Print Assumptions C19_path_components.
 
 (* reading the path back gives n; distinct sequence numbers give distinct paths *)
 Theorem C19_path_parse_roundtrip : forall base dir suffix n, 0 <= n < 1000000000 ->
@@ -156,6 +165,7 @@ Theorem C19_dirs_and_first_numbers :
   (kind_dir 0 = "minute" /\ kind_dir 1 = "hour" /\ kind_dir 2 = "day" /\ kind_dir 3 = "changesets")%string
   /\ forall k, 1 <= kind_min k.
 Proof. split; [repeat split; reflexivity|exact gen_min_pos]. Qed.
+Print Assumptions C19_dirs_and_first_numbers.
 
 (* 4. the changeset state's off-by-one: the current state file (n = 0) carries the number
       before the newest file; a numbered file is given the number of its name, whatever the
@@ -175,6 +185,7 @@ Theorem C19_time_formats :
   In "2006-01-02 15:04:05.999999999 Z"%string time_formats /\
   In "2006-01-02 15:04:05.999999999 +00:00"%string time_formats.
 Proof. exact gen_time_formats. Qed.
+Print Assumptions C19_time_formats.
 
 (* 4'. State files are read as the planet server writes them.  [decode_interval_gen] /
        [decode_changeset_gen] are the byte-level models of decodeIntervalState /
@@ -231,10 +242,12 @@ Theorem C19_decode_changeset_no_garbage : forall fmts ls kv data n t,
     decode_time fmts (trim (join kv (tl (split_on kv l1)))) = Some t /\
     nth_error (split_on kv l2) 1 = Some p /\ parse_uint (trim p) = Some n.
 Proof. exact decode_changeset_no_garbage. Qed.
+Print Assumptions C19_decode_changeset_no_garbage.
 
 Theorem C19_decode_time_real_day : forall fmts s t, decode_time fmts s = Some t ->
   1 <= t_day t <= days_in (t_mon t) (t_year t).
 Proof. exact decode_time_real_day. Qed.
+Print Assumptions C19_decode_time_real_day.
 
 (* 4''. Tie by sampled behaviour: the translator also drives the exported entry points with a
         recording transport on every run; the URLs requested for 16 sequence numbers x 4 kinds x
